@@ -523,6 +523,9 @@ func pvc_assert(b bool)          {}
 func pvc_assume(b bool)          {}
 func pvc_havoc[T any](x *T)      {}
 
+// pvc_suffix(a, b): a is a tail of b (same memory, same end), or empty.
+func pvc_suffix(a, b []byte) bool { return true }
+
 // pvc_idx names the iteration counter of a range loop that has no index variable.
 var pvc_idx int
 `
